@@ -113,6 +113,21 @@ class NNModel(torch.nn.Module):
         return self.sub.W, self.c, self.s
 
 
+class NNTied(torch.nn.Module):
+    """torch.nn.Module with tied parameters: c is registered under two names"""
+
+    def __init__(self, W, c, s, ticker):
+        super().__init__()
+        self.c = torch.nn.Parameter(c)
+        self.W = torch.nn.Parameter(W)
+        self.c2 = self.c
+        self.s = s
+        self._ticker = ticker
+
+    def wcs(self):
+        return self.W, 0.5 * self.c + 0.5 * self.c2, self.s
+
+
 class EditModel(EditableModule):
     """EditableModule with a derived (non-leaf) tensor, a list-held and a dict-held alias of one tensor"""
 
@@ -191,7 +206,7 @@ class HoldW(EditableModule):
         raise KeyError(methodname)
 
 
-for _cls in (NNModel, EditModel, EditHoldsNN, EditW):
+for _cls in (NNModel, NNTied, EditModel, EditHoldsNN, EditW):
     for _n in MATH:
         setattr(_cls, _n, _mk_method(_n))
 
@@ -225,6 +240,12 @@ class Repr(object):
         elif kind == "nn":
             self.obj = NNModel(W0, c0, s, t)
             self.leaves = [self.obj.sub.W, self.obj.c]
+            self.params = ()
+            self.objects = [self.obj]
+            self._mk = lambda name: getattr(self.obj, name)
+        elif kind == "nntied":
+            self.obj = NNTied(W0, c0, s, t)
+            self.leaves = [self.obj.W, self.obj.c]
             self.params = ()
             self.objects = [self.obj]
             self._mk = lambda name: getattr(self.obj, name)
